@@ -4,6 +4,7 @@ import (
 	"fmt"
 	"sort"
 	"strings"
+	"time"
 
 	"verif/internal/drive"
 	"verif/internal/gen"
@@ -35,7 +36,7 @@ func (c13) Plan(tier string, seed int64) []mon.Workload {
 	if tier == "thorough" {
 		n = 80000
 	}
-	return []mon.Workload{{Name: "trees", N: n}}
+	return []mon.Workload{{Name: "trees", N: n}, {Name: "many-calls", N: int64(len(c13ManyShapes) * len(c13ManyCounts)), Exhaustive: true}}
 }
 
 type c13Case struct {
@@ -97,8 +98,79 @@ func (c13) build(c *mon.Ctx) c13Case {
 	return cs
 }
 
+// many-calls (exhaustive): use() called 1..1000 times in ONE run - in a loop,
+// as that many statements in a row, from two nested levels of loops (neither
+// of which is long alone), with a callee that exit()s every time. The callee
+// runs every time and the caller goes on after every call: the counter it
+// keeps in the point and the caller's own variable agree at the end.
+var c13ManyCounts = []int{1, 2, 63, 64, 65, 127, 128, 129, 130, 255, 256, 257, 1000}
+var c13ManyShapes = []string{"loop", "sequence", "nested", "nested-wide", "callee-exits", "loop-in-branch", "three-levels"}
+
+func c13Many(i int64) c13Case {
+	shape := c13ManyShapes[int(i)%len(c13ManyShapes)]
+	n := c13ManyCounts[int(i)/len(c13ManyShapes)]
+	srcs := map[string]string{}
+	leaf := "add_key(cnt, cnt + 1)\nv = \"callee-private\"\n"
+	loop := func(times int, callee string) string {
+		return fmt.Sprintf("n = 0\nfor i = 0; i < %d; i = i + 1 {\n  use(\"%s\")\n  n = n + 1\n}\n", times, callee)
+	}
+	switch shape {
+	case "loop":
+		srcs["main.p"] = loop(n, "s1.p") + "p(\"end-of-main.p\", n, cnt, v)\n"
+		srcs["s1.p"] = leaf
+	case "sequence":
+		srcs["main.p"] = "n = 0\n" + strings.Repeat("use(\"s1.p\")\nn = n + 1\n", n) + "p(\"end-of-main.p\", n, cnt, v)\n"
+		srcs["s1.p"] = leaf
+	case "nested", "nested-wide":
+		a := 1
+		for a*a < n {
+			a++
+		}
+		b := (n + a - 1) / a
+		if shape == "nested-wide" {
+			a, b = 2, (n+1)/2
+		}
+		srcs["main.p"] = loop(a, "s1.p") + "p(\"end-of-main.p\", n, cnt, v)\n"
+		srcs["s1.p"] = loop(b, "s2.p") + "p(\"end-of-s1.p\", n)\n"
+		srcs["s2.p"] = leaf
+	case "callee-exits":
+		srcs["main.p"] = loop(n, "s1.p") + "p(\"end-of-main.p\", n, cnt, v)\n"
+		srcs["s1.p"] = leaf + "if true {\n  exit()\n}\nadd_key(not_reached, 1)\n"
+	case "loop-in-branch":
+		srcs["main.p"] = "if true {\n" + loop(n, "s1.p") + "}\nuse(\"s1.p\")\np(\"end-of-main.p\", n, cnt, v)\n"
+		srcs["s1.p"] = leaf
+	case "three-levels":
+		srcs["main.p"] = "use(\"s1.p\")\nuse(\"s1.p\")\np(\"end-of-main.p\", cnt, v)\n"
+		srcs["s1.p"] = loop((n+1)/2, "s2.p") + "use(\"s2.p\")\np(\"end-of-s1.p\", n)\n"
+		srcs["s2.p"] = "use(\"s3.p\")\n"
+		srcs["s3.p"] = leaf
+	}
+	cs := c13Case{Stmts: map[string][]*gt.T{}, Srcs: srcs, Point: ref.NewPoint("m", nil, map[string]any{"cnt": int64(0), "message": "x"}, time.Unix(1700000000, 0))}
+	for name, text := range srcs {
+		cs.Names = append(cs.Names, name)
+		o := drive.Parse(name, text)
+		if o.Err != nil {
+			panic("c13: many-calls script does not parse: " + text + ": " + o.Err.Error())
+		}
+		l, err := gt.FromStmts(o.Stmts)
+		if err != nil {
+			panic(err)
+		}
+		cs.Stmts[name] = gt.CloneStmts(l)
+	}
+	sort.Strings(cs.Names)
+	return cs
+}
+
+func (k c13) buildFor(c *mon.Ctx, workload string, i int64) c13Case {
+	if workload == "many-calls" {
+		return c13Many(i)
+	}
+	return k.build(c)
+}
+
 func (k c13) Describe(c *mon.Ctx, workload string, i int64) any {
-	cs := k.build(c)
+	cs := k.buildFor(c, workload, i)
 	return map[string]any{"scripts": cs.Srcs, "point": cs.Point.Show()}
 }
 
@@ -119,7 +191,7 @@ func srcDump(m map[string]string) string {
 }
 
 func (k c13) Run(c *mon.Ctx, workload string, i int64) {
-	cs := k.build(c)
+	cs := k.buildFor(c, workload, i)
 	info := map[string]any{"scripts": cs.Srcs, "point": cs.Point.Show()}
 	ok, errs := drive.LoadV1(cs.Srcs)
 	c.Eval(1)
